@@ -33,7 +33,7 @@ def midscore_change_before(doc, sc, b):
     return False
 
 
-def one(ctx: Ctx, cs, pname, over, core=True):
+def one(ctx: Ctx, cs, pname, over, core=True, derive=None):
     doc, _ = MC.build(cs, pname, over)
     x = doc.text(0)
     ctx.ev()
@@ -42,6 +42,10 @@ def one(ctx: Ctx, cs, pname, over, core=True):
     if exc is not None or e:
         ctx.mon('precondition_failed')
         return
+    if derive:
+        d = MC.derive_document(ctx, d, doc, x, cs, derive)
+        if d is None:
+            return
     kw = {'spine_types': ['**kern']} if set(doc.headers) != {'**kern'} else {}
     sc = MC.Score(doc, d, kw)
     if not sc.ok or sc.M == 0:
@@ -49,7 +53,7 @@ def one(ctx: Ctx, cs, pname, over, core=True):
         return
     ctx.cls(*sorted(doc.tags))
     ctx.cls('core' if core else 'explored')
-    case = {'case_seed': cs, 'profile': pname, 'over': over, 'core': core, 'text': x}
+    case = {'case_seed': cs, 'profile': pname, 'over': over, 'core': core, 'text': x, 'derive': derive}
     M = sc.M
     full_ctx = H.note_contexts(sc.full)
     if full_ctx is None:
@@ -156,6 +160,10 @@ def run(ctx: Ctx):
         pname, over = MC.EXPLORED[i % len(MC.EXPLORED)]
         one(ctx, cs, pname, over, core=False)
         i += 1
+    # excerpts of derived documents (clone / to_transposed / concat result) of core scores
+    for k_, cs in enumerate(cases(ctx, 'c08-derived', n_core // 4)):
+        pname, over = MC.profiles(ctx.tier)[k_ % 8]
+        one(ctx, cs, pname, over, core=True, derive=['transposed', 'concat', 'clone'][k_ % 3])
     if ctx.tier == 'thorough' and (ctx.shard is None or ctx.shard[0] == 0):
         # long silent spine: the cancellation test is recursive
         for cs in cases(ctx, 'c08long', 1):
@@ -166,7 +174,7 @@ def run(ctx: Ctx):
 
 def replay(ctx, w):
     case = w.get('case', w)
-    one(ctx, case['case_seed'], case['profile'], case.get('over', {}), core=case.get('core', True))
+    one(ctx, case['case_seed'], case['profile'], case.get('over', {}), core=case.get('core', True), derive=case.get('derive'))
     print(case.get('text', ''))
     if 'excerpt' in case:
         print('--- excerpt ---')
